@@ -8,12 +8,9 @@
 package vmap
 
 import (
-	"bytes"
 	"fmt"
 	"reflect"
-	"runtime"
 	"sort"
-	"strconv"
 	"sync"
 
 	"verif/engine/mc"
@@ -31,15 +28,12 @@ var (
 	Deviated = map[string]int64{}
 )
 
-func goid() int64 {
-	var buf [64]byte
-	n := runtime.Stack(buf[:], false)
-	b := buf[:n]
-	b = bytes.TrimPrefix(b, []byte("goroutine "))
-	i := bytes.IndexByte(b, ' ')
-	id, _ := strconv.ParseInt(string(b[:i]), 10, 64)
-	return id
-}
+// getg returns the g pointer of the calling goroutine (assembly, getg_amd64.s); it is a
+// stable identity for the goroutine's lifetime and costs a few nanoseconds, unlike parsing
+// runtime.Stack.
+func getg() uintptr
+
+func goid() int64 { return int64(getg()) }
 
 // Attach binds ch to the calling goroutine until Detach.
 func Attach(ch *mc.Chooser) { g := goid(); mu.Lock(); choosers[g] = ch; mu.Unlock() }
